@@ -2,8 +2,8 @@
 package c01
 
 import (
-	"encoding/base64"
 	"bytes"
+	"encoding/base64"
 	"encoding/json"
 	"errors"
 	"fmt"
@@ -19,6 +19,7 @@ import (
 	"verif/internal/fw"
 	"verif/internal/opsenv"
 	"verif/internal/world"
+	"verif/props/c14"
 )
 
 type lookupT struct {
@@ -825,6 +826,8 @@ func FirstCalls() []fw.Call {
 
 func Run(r *fw.Run) {
 	defer fw.FirstCallOrders(r, r.ID, FirstCalls(), nil)
+	// deviation 0 on deep logs: an honest server, cache and stored head never make a lookup fail
+	c14.DeepLogs(r)
 	nmax := r.Pick(7, 12)
 	heights := []int{1, 2, 3}
 	r.Bounds["log_sizes"] = fmt.Sprintf("1..%d (plus 13 records with tile height 8 in thorough)", nmax)
@@ -915,6 +918,9 @@ func Run(r *fw.Run) {
 }
 
 func Replay(r *fw.Run, raw json.RawMessage) {
+	if c14.ReplayTall(r, raw) {
+		return
+	}
 	var c caseT
 	if err := json.Unmarshal(raw, &c); err != nil {
 		r.Violation("replay", err.Error(), nil)
